@@ -1120,9 +1120,16 @@ func c13ExecuteSeq(tree *TNode, steps []c13Step) (calls []int, mismatch string) 
 				return calls, ""
 			}
 			if newRoot == nil || newMRoot == nil {
-				return calls, "" // aborted Transform: the partial in-place state is not asserted, the sequence ends
+				// aborted Transform: the partial in-place state below the root is not asserted and
+				// the sequence ends - unless it was the ROOT's own transformer that failed (the
+				// first callback): then nothing has been touched and the history goes on
+				ownFailed := pass == "transform" && st.Fault == 1 && (mroot.hasTransformer() || mroot.t.Kind == "xformable" || mroot.t.Kind == "litxform")
+				if !ownFailed {
+					return calls, ""
+				}
+			} else {
+				root, mroot = newRoot, newMRoot
 			}
-			root, mroot = newRoot, newMRoot
 		}
 		// Schema() of every node of the current tree: set before the fault, untouched after
 		var cmp func(n parsley.Node, x *mTree) string
@@ -1242,6 +1249,11 @@ func (*c13Prop) Run(cc Case) Verdict {
 		v.Probes["executions"]++
 		for k := 1; k <= nEval; k++ {
 			seqs = append(seqs, []c13Step{{"eval", k}, {"eval", 0}}) // failed evaluation, then a clean one
+		}
+		// a failed transformation, then a clean one on the same (partly transformed) tree
+		nXf, _ := c13Execute(&c.Tree, "transform", 0)
+		for k := 1; k <= nXf && k <= 6; k++ {
+			seqs = append(seqs, []c13Step{{"transform", k}, {"transform", 0}})
 		}
 		seqs = append(seqs,
 			[]c13Step{{"eval", 0}, {"eval", 0}},
